@@ -34,7 +34,7 @@ Proof.
     destruct v1; try discriminate;
       try (destruct (py_own_attr f); [discriminate|]);
       try (injection H as <- _; exact E);
-      try (destruct (String.eqb f "id"); [injection H as <- _; exact E|discriminate]).
+      try (dbind H as w0; injection H as <- _; exact E).
     + destruct (nth_error (heap s1) h); [|discriminate].
       destruct (row_attr c f); injection H as <- _; exact E.
     + destruct (String.eqb f "id"); [|discriminate]. dbind H as [s2 i].
@@ -84,7 +84,7 @@ Proof.
       destruct (row_attr c p); [|discriminate]. injection E as <- _. reflexivity.
     + destruct (String.eqb p "id"); [|discriminate]. dbind E as [s2 i].
       injection E as <- _. apply touch_slot_frames in E0. exact E0.
-    + destruct (String.eqb p "id"); [|discriminate]. injection E as <- _. reflexivity.
+    + dbind E as w0. injection E as <- _. reflexivity.
 Qed.
 
 Lemma reference_frames e path s s' v : reference e path s = Ok (s', v) -> same_frames s s'.
@@ -149,7 +149,8 @@ Proof.
   - rewrite lookup_name_app. destruct (lookup_name e s n) as [[v|]|]; reflexivity.
   - rewrite IHa. destruct (eval_expr e a s) as [[s1 v]|]; [|reflexivity]. cbn [liftA bind].
     destruct v; try reflexivity; try (destruct (py_own_attr f); reflexivity);
-      try (destruct (String.eqb f "id"); reflexivity).
+      try (change (hist (rnd (app_out o s1))) with (hist (rnd s1)); change (heap (app_out o s1)) with (heap s1);
+           destruct (hist_attr (hist (rnd s1)) (heap s1) table id f); reflexivity).
     + destruct (py_own_attr f); [reflexivity|]. change (heap (app_out o s1)) with (heap s1).
       destruct (nth_error (heap s1) h); [|reflexivity]. destruct (row_attr c f); reflexivity.
     + destruct (String.eqb f "id"); [|reflexivity]. rewrite touch_slot_app.
@@ -197,7 +198,8 @@ Proof.
     destruct (row_attr c p); reflexivity.
   - destruct (String.eqb p "id"); [|reflexivity]. rewrite touch_slot_app.
     destruct (touch_slot s name) as [[s1 i]|]; reflexivity.
-  - destruct (String.eqb p "id"); reflexivity.
+  - change (hist (rnd (app_out o s))) with (hist (rnd s)). change (heap (app_out o s)) with (heap s).
+    destruct (hist_attr (hist (rnd s)) (heap s) table id p); reflexivity.
 Qed.
 
 Lemma follow_path_app parts : forall s o v, follow_path (app_out o s) v parts = liftA o (follow_path s v parts).
